@@ -98,9 +98,15 @@ fn load_scenario(text: &str) -> (Context, Vec<String>) {
 }
 
 /// every `name expr` unit definition of a scenario (tdef blocks and definitions texts)
-fn scenario_unit_defs(text: &str) -> Vec<(String, rink_core::ast::Expr)> {
+fn scenario_unit_defs(text: &str) -> (Vec<(String, rink_core::ast::Expr)>, Vec<String>) {
     let mut out = vec![];
-    let mut take = |d: &DefEntry| if let Def::Unit { expr } = &*d.def { out.push((d.name.clone(), expr.0.clone())); };
+    let mut scratch = vec![];
+    let mut take = |d: &DefEntry| match &*d.def {
+        Def::Unit { expr } => out.push((d.name.clone(), expr.0.clone())),
+        // the names a substance block binds while it is being read
+        Def::Substance { properties, .. } => for p in properties { scratch.extend([p.name.clone(), p.input_name.clone(), p.output_name.clone()]); },
+        _ => {}
+    };
     for line in text.lines() {
         if line.starts_with("tdef ") { if let Some(d) = parse_tdef(line) { take(&d); } }
         else if let Some(p) = line.strip_prefix("text ").or_else(|| line.strip_prefix("multitext ")) {
@@ -109,11 +115,19 @@ fn scenario_unit_defs(text: &str) -> Vec<(String, rink_core::ast::Expr)> {
             }
         }
     }
-    out
+    scratch.sort(); scratch.dedup();
+    (out, scratch)
 }
 
 /// The predicates of C08 computed on the real registry (independent of the model).
-fn oracle(ctx: &Context, unit_defs: &[(String, rink_core::ast::Expr)], w: &mut impl Write) {
+fn oracle(ctx: &mut Context, unit_defs: &[(String, rink_core::ast::Expr)], scratch: &[String], w: &mut impl Write) {
+    // what the scratch names of the substance blocks denote now, and in a fresh context holding the same registry
+    let seen: Vec<Option<rink_core::types::Number>> = scratch.iter().map(|n| ctx.lookup(n)).collect();
+    let mut fresh = Context::new();
+    std::mem::swap(&mut fresh.registry, &mut ctx.registry);
+    let mut leaked: Vec<String> = scratch.iter().zip(seen.iter()).filter(|(n, v)| fresh.lookup(n) != **v).map(|(n, _)| n.clone()).collect();
+    std::mem::swap(&mut fresh.registry, &mut ctx.registry);
+    let ctx = &*ctx;
     use rink_core::ast::Expr;
     use rink_core::runtime::Value;
     let r = &ctx.registry;
@@ -183,6 +197,7 @@ fn oracle(ctx: &Context, unit_defs: &[(String, rink_core::ast::Expr)], w: &mut i
         if n == "ans" || n == "ANS" || n == "_" { continue; }
         if !r.base_units.contains(&n[..]) { if ctx.lookup(n).as_ref() != Some(v) { stale.push(n.clone()); } }
     }
+    stale.append(&mut leaked);
     line("staleNames", stale);
     writeln!(w, "oracle fixedPointChecked {}", checked).unwrap();
     writeln!(w, "oracle fixedPointSubstChecked {}", schecked).unwrap();
@@ -230,8 +245,11 @@ pub fn loadone(o: &Opts) -> i32 {
             dump_registry(&ctx, &errors, &mut w);
             // the unit definitions of the scenario, re-read for the substance part of the fixed point (only
             // when loading reported nothing; the parser's diagnostics of this second reading do not count)
-            let unit_defs = if errors.is_empty() { println!("@@oracle-reparse"); scenario_unit_defs(&text) } else { vec![] };
-            oracle(&ctx, &unit_defs, &mut w);
+            println!("@@oracle-reparse");
+            let (unit_defs, scratch) = scenario_unit_defs(&text);
+            let unit_defs = if errors.is_empty() { unit_defs } else { vec![] };
+            let mut ctx = ctx;
+            oracle(&mut ctx, &unit_defs, &scratch, &mut w);
             writeln!(w, "usable {} probes {}", usable, probes).unwrap();
             writeln!(w, "deterministic {}", same).unwrap();
         }
@@ -432,6 +450,8 @@ pub fn run(o: &Opts) -> i32 {
             let mut gen: Vec<DefEntry> = vec![DefEntry { name: "b0".into(), def: Rc::new(Def::BaseUnit { long_name: Some("base0".into()) }), doc: None, category: None }];
             for i in 1..300 { gen.push(unit(&format!("chain{}", i), &if i == 1 { "2 b0".to_string() } else { format!("3 chain{}", i - 1) })); }
             for i in 0..200 { gen.push(unit(&format!("fan{}", i), &format!("chain{} chain{} / chain{}", 1 + rng.below(299), 1 + rng.below(299), 1 + rng.below(299)))); }
+            // a chain whose alphabetically first name depends on all the others (the dependency sort enters it from the dependent end)
+            for i in 0..400 { gen.push(unit(&format!("link{:03}", i), &if i == 399 { "5 b0".to_string() } else { format!("2 link{:03}", i + 1) })); }
             gen.push(DefEntry { name: "kilo".into(), def: Rc::new(Def::Prefix { expr: ExprString(rink_core::ast::Expr::new_const(rink_core::types::Numeric::from(1000))), is_long: true }), doc: None, category: None });
             gen.push(unit("usesprefix", "kilochain7 + 1 chain8"));
             // names that can be read in more than one way: overlapping prefixes (`d` + `am` / `da` + `m`),
